@@ -113,6 +113,15 @@ def merge_into(agg: Dict[str, Any], res: Dict[str, Any], rs: int, index: int, tr
         agg.setdefault("digests", set()).add(int(res["digest"][:16], 16))
     for k, v in res.get("sets", {}).items():
         agg.setdefault("sets", {}).setdefault(k, set()).update(v)
+    cr = res.get("cross")
+    if cr:
+        d = agg.setdefault("cross", {})
+        for k, o in cr.items():
+            if k not in d:
+                if len(d) < 3_000_000:
+                    d[k] = (o, index)
+            elif d[k][0] != o:
+                agg.setdefault("cross_conflicts", []).append((k, d[k][1], index))
     viols = agg.setdefault("violations", {})
     for v in res.get("violations", []):
         key = sig_key(v)
@@ -161,11 +170,24 @@ def violation_matches(res: Dict[str, Any], key: str) -> Optional[Dict[str, Any]]
     return None
 
 
-def minimise(prop: str, trace: Dict[str, Any], key: str, wall_limit: float) -> Dict[str, Any]:
+def minimise(prop: str, trace: Dict[str, Any], key: str, wall_limit: float, tier: str = "quick",
+             batch_seed: int = 0) -> Dict[str, Any]:
     """Shrink `trace` while the same violation class (oracle + signature) persists."""
     faulthandler.dump_traceback_later(wall_limit, exit=True)
+    _STATE["batch_seed"] = batch_seed
     try:
         mod = get_prop(prop)
+        if hasattr(mod, "resolve_cross") and trace.get("kind") == "cross-unresolved":
+            # a violation found by the parent's cross-interpreter comparison: make it concrete
+            oracle = key.split("|", 1)[0]
+            t2 = mod.resolve_cross(trace, tier)
+            if t2 is None:
+                return {"trace": trace, "shrunk": False, "note": "cross violation could not be resolved"}
+            r0 = mod.execute(t2)
+            v0 = next((v for v in r0.get("violations", []) if v["oracle"] == oracle), None)
+            if v0 is None:
+                return {"trace": t2, "shrunk": False, "note": "cross violation did not reproduce"}
+            trace, key = t2, sig_key(v0)
 
         def still_fails(t: Dict[str, Any]) -> bool:
             try:
@@ -191,6 +213,7 @@ def minimise(prop: str, trace: Dict[str, Any], key: str, wall_limit: float) -> D
             "size_after": mod.trace_size(small) if hasattr(mod, "trace_size") else None,
             "violation": v,
             "digest": r["digest"],
+            "key": key,
         }
     finally:
         faulthandler.cancel_dump_traceback_later()
